@@ -62,7 +62,7 @@ func TestC13(t *testing.T) {
 		big := pct(t, "big", map[bool]int{true: 8, false: 3}[thorough()])
 		if big {
 			// crossing 65,535 needs the default / u16 limit (or wider) to be interesting
-			o.Dict = rapid.SampledFrom([]string{"", "u16", "u32", "none"}).Draw(t, "bigdict")
+			o.Dict = rapid.SampledFrom([]string{"", "u32", "u16", "none"}).Draw(t, "bigdict")
 		}
 		maxb := 40
 		if big {
